@@ -59,7 +59,9 @@ StreamOf(t, r) == IF r.cut < 0 THEN t.S ELSE SubSeq(t.S, 1, r.cut)
 MonC07run(t, r) ==
     \* (errors not raised: an iteration that an exception stops all the same, with data still unread, has stopped early)
     IF r.quit # 2 /\ r.end \notin {"eof", "hang"} /\ r.left # 0 THEN "C07:iteration-stopped-by-an-exception-with-data-unread"
-    ELSE IF r.end # "eof" \/ r.quit = 2 THEN "triv"
+    \* (a run that raises its errors to a caller who catches them and carries on - resume - is judged like the others once it ENDS:
+    \* its items are slices in order, and its end-of-stream report means the stream has no more data)
+    ELSE IF r.end # "eof" \/ (r.quit = 2 /\ ~("resume" \in DOMAIN r /\ r.resume = 1)) THEN "triv"
     ELSE LET sl == SlicesFrom(t, StreamOf(t, r), r, 1, 0) IN
          IF sl # "ok" THEN sl
          ELSE IF r.left # 0 THEN "C07:stopped-with-data-unread"
@@ -112,6 +114,11 @@ MonC06(t) ==
                   ELSE IF r.pt[i] # TypeName(exp[i].p) /\ exp[i].dd # "None" THEN "C06:wrong-parsed-type"
                   ELSE "C06:parsed-differs-from-direct-parse"
                ELSE IF r.left # 0 THEN "C06:stopped-early"
+               \* a second run raises its errors to a caller who catches them and carries on with the same iterator: a rejected
+               \* frame still does not disturb the frames after it - the same items come out
+               ELSE IF Len(t.runs) >= 2 /\ t.runs[2].quit = 2 /\ t.runs[2].end \notin {"hang"}
+                       /\ (t.runs[2].end # "eof" \/ t.runs[2].items # r.items \/ t.runs[2].left # 0)
+                    THEN "C06:frames-after-a-raised-and-caught-error-not-delivered"
                ELSE IF Len(exp) = 0 THEN "triv"
                ELSE "ok"
 
